@@ -77,7 +77,7 @@ def check_graph(ctx, f, rep):
         direct = 0
         active = None
         for i, e in enumerate(p.events):
-            if e['kind'] == 'cond' and e.get('dty') == 'bool' and e['expr'][0] == 'fieldv' and e['expr'][3] == 'Continue' \
+            if e['kind'] == 'cond' and e.get('dty') == 'bool' and q.ok_payload_of(p, e['expr']) is not None \
                     and active is None:
                 active = q.cond_truth(e)
             if e['kind'] != 'call' or not e['res'].startswith('Foca::'):
